@@ -11,11 +11,11 @@ PID = 'C04'
 RULE = ("zones rasters (int/float ids, NaN/+-inf zone cells) x categorical value rasters over small alphabets (int and float dtypes, "
         "NaN/inf cells), nodata in {None, present, absent}; zone_ids / cat_ids: None, subsets, permutations, absent ids; for <= 4 "
         "zones x <= 4 categories every subset and permutation of both id lists (exhaustive kind); agg count and percentage (2-D), "
-        "the seven aggregates on 3-D values (NumPy) and count on 3-D Dask; NumPy backend and Dask with equal chunking; non-trivial "
+        "the seven aggregates on 3-D values (NumPy) and count on 3-D Dask; NumPy backend (zones and values independently in C / Fortran / strided / negative-stride layouts) and Dask with equal chunking; non-trivial "
         "= distinct (zones, values, selection, agg) with >= 2 zones, >= 2 categories and a restricted or permuted selection")
 BUDGET = {'quick': 100, 'thorough': 700}
 FLOORS = {'quick': {'entries': 400, 'restricted.cat_ids': 150, 'restricted.zone_ids_unsorted': 100, 'percentage.rows_sum_100': 80,
-                    'xtab3d': 100, 'dask.2d': 50, 'exhaustive.selections': 1500},
+                    'xtab3d': 100, 'layouts_differ_between_inputs': 60, 'dask.2d': 50, 'exhaustive.selections': 1500},
           'thorough': {'entries': 4000, 'exhaustive.selections': 30000, 'xtab3d': 1000}}
 EXHAUSTIVE = {'quick': ['for each generated raster with <= 3 zones and <= 3 categories: every non-empty ordered selection (subset x permutation) of zone_ids crossed with every one of cat_ids'],
               'thorough': ['for each generated raster with <= 4 zones and <= 4 categories: every non-empty ordered selection (subset x permutation) of zone_ids crossed with every one of cat_ids']}
@@ -123,8 +123,9 @@ def check(rec, kind, idx, rng, tier):
         if not uz or not uc:
             rec.rej('no_zone_or_category'); return
         geom = gen.random_geom(rng)
-        za = gen.mk(zones, name='zones', **geom); va = gen.mk(values, name='values', **geom)
-        base0 = dict(zones=zones, values=values, nodata=nodata, zones_kind=zkind, zones_nonfinite=znf)
+        zlay = str(rng.choice(['C', 'C', 'F', 'strided', 'neg'])); vlay = str(rng.choice(['C', 'C', 'F', 'strided', 'neg']))
+        za = gen.mk(gen.layout(zones, zlay), name='zones', **geom); va = gen.mk(gen.layout(values, vlay), name='values', **geom)
+        base0 = dict(zones=zones, values=values, nodata=nodata, zones_kind=zkind, zones_nonfinite=znf, zones_layout=zlay, values_layout=vlay)
         if kind == 'exh':
             if len(uz) > maxz or len(uc) > 4:
                 rec.rej('too_many_ids_for_exhaustive'); return
@@ -167,6 +168,7 @@ def check(rec, kind, idx, rng, tier):
             rec.violation('crosstab.raises', 'crosstab raised %r' % out, base)
         elif _judge_frame(rec, out, zones, values, zsel, csel, nodata, agg, base):
             rec.cls('zones.' + znf); rec.cls('nodata.' + ndlabel); rec.cls('agg.' + agg)
+            if zlay != vlay: rec.ok('layouts_differ_between_inputs')
             if zsel is not None and zsel != sorted(zsel): rec.ok('restricted.zone_ids_unsorted')
             if csel is not None and len([c for c in uc if c in set(csel)]) < len(uc): rec.ok('restricted.cat_ids')
             if len(uz) >= 2 and len(uc) >= 2 and (zsel is not None or csel is not None):
@@ -215,8 +217,11 @@ def check(rec, kind, idx, rng, tier):
         rec.rej('no_zone_or_category'); return
     layer_last = rng.random() < 0.3
     ys = np.arange(H) * 1.0; xs = np.arange(W) * 1.0
+    if rng.random() < 0.3:
+        zones = np.asfortranarray(zones)
     if layer_last:
-        va = xr.DataArray(np.ascontiguousarray(np.moveaxis(vals, 0, 2)), dims=['y', 'x', 'cat'], coords={'y': ys, 'x': xs, 'cat': labels})
+        va = xr.DataArray(np.ascontiguousarray(np.moveaxis(vals, 0, 2)) if rng.random() < 0.5 else np.moveaxis(vals, 0, 2),
+                          dims=['y', 'x', 'cat'], coords={'y': ys, 'x': xs, 'cat': labels})
         lkw = dict(layer=2)
     else:
         va = xr.DataArray(vals, dims=['cat', 'y', 'x'], coords={'cat': labels, 'y': ys, 'x': xs})
